@@ -28,6 +28,8 @@ type Config struct {
 	Embeds      map[string]string // global var full name -> content (go:embed)
 	Trace       bool
 	VfsErrType   types.Type
+	VfsCwd       string            // initial working directory of the virtual file system (default /vroot)
+	VfsFiles     map[string]string // absolute path -> content, present in the virtual file system from the start
 	Params       map[string]int64
 	FileInfoType types.Type
 }
@@ -77,6 +79,10 @@ type Interp struct {
 	phases        map[int]*phaseLog
 	syncUses     []string
 	pools        map[*Value][]Value
+	testFailed   bool
+	openFiles    map[*Value][]Value
+	syncMaps     map[*Value]*Map
+	testMsg      string
 	nondetUses   []string
 	// statistics
 	FnInstr map[string]int64
@@ -201,6 +207,30 @@ func (in *Interp) throwNilDeref() {
 
 func (in *Interp) unsupported(msg string) {
 	panic(&pathAbort{kind: "unsupported", msg: msg + " at " + in.posString() + " [" + in.stackString(5) + "]"})
+}
+
+// ssaInfo: register layout for interpreting fn's own body (used by intrinsics that fall back to the library source).
+func (in *Interp) ssaInfo(fn *ssa.Function) *fnInfo {
+	fi := &fnInfo{idx: map[ssa.Value]int{}, name: fn.String()}
+	n := 0
+	for _, p := range fn.Params {
+		fi.idx[p] = n
+		n++
+	}
+	for _, fv := range fn.FreeVars {
+		fi.idx[fv] = n
+		n++
+	}
+	for _, b := range fn.Blocks {
+		for _, ins := range b.Instrs {
+			if v, ok := ins.(ssa.Value); ok {
+				fi.idx[v] = n
+				n++
+			}
+		}
+	}
+	fi.nregs = n
+	return fi
 }
 
 func (in *Interp) info(fn *ssa.Function) *fnInfo {
